@@ -27,6 +27,7 @@ import Relic.Driver.C04Policy
 import Relic.Driver.MachO
 import Relic.Driver.Pgp
 import Relic.Driver.Appx
+import Relic.Driver.AppxPkg
 import Relic.Driver.Deb
 import Relic.Driver.ApkVerify
 import Relic.Driver.XmlSig
@@ -72,6 +73,7 @@ def dispatch (line : String) : String :=
   | "MACHO" :: rest => Relic.Driver.MachO.handle rest
   | "PGP" :: rest => Relic.Driver.Pgp.handle rest
   | "APPX" :: rest => Relic.Driver.Appx.handle rest
+  | "APPXV" :: rest => Relic.Driver.AppxPkg.handle rest
   | "DEB" :: rest => Relic.Driver.Deb.handle rest
   | "APKV" :: rest => Relic.Driver.ApkVerify.handle rest
   | "APKBLK" :: rest => Relic.Driver.C11.handleApk rest
